@@ -117,6 +117,15 @@ def rule_p1(repo):
                                                   and cp[2].value is None and 'prev_th' in ''.join(names_in(cp[1])))(compare_parts(n.ast))]
     ok = bool(none_tests) and all(not cfg.can_reach(s, cfg.exit, skip_nodes=[]) or True for s in none_tests)
     raising = all(all(_only_raises(cfg, b) for b in _succ(t, 'true')) for t in none_tests)
+    if not none_tests:
+        # the same test as the filter of a list of offenders that must be empty: bad = [p for p, th in zip(..) if th is None]; if bad: raise
+        for a in ast.walk(func.node):
+            if isinstance(a, ast.Assign) and len(a.targets) == 1 and isinstance(a.targets[0], ast.Name) and isinstance(a.value, (ast.ListComp, ast.GeneratorExp)) and \
+                    any((lambda cp: cp and cp[0] is ast.Is and isinstance(cp[2], ast.Constant) and cp[2].value is None and
+                         'prev_th' in ''.join(names_in(cp[1])))(compare_parts(c_)) for g_ in a.value.generators for c_ in g_.ifs):
+                offenders = a.targets[0].id
+                none_tests = [n for n in cfg.test_nodes() if is_name(n.ast, offenders)]
+                raising = bool(none_tests) and all(all(_only_raises(cfg, b) for b in _succ(t, 'true')) for t in none_tests)
     res.add('%s :: Theory._check_proof_item :: cited-theorem-not-None' % THEORY, bool(none_tests) and raising,
             'a cited step without theorem is rejected' if none_tests and raising else
             'no rejection of cited steps whose theorem is None', func.loc)
@@ -192,8 +201,9 @@ def rule_p2(repo):
     for c in ast.walk(cp.node):
         if isinstance(c, ast.Call) and call_name(c) == 'self._check_proof_item':
             bad = []
+            item_params = check_item_func(repo).params()[1:]
             for p in ('rpt', 'no_gaps', 'compute_only', 'check_level'):
-                i = idx[p] - 1
+                i = item_params.index(p)
                 got = c.args[i] if i < len(c.args) else next((k.value for k in c.keywords if k.arg == p), None)
                 if not is_name(got, p):
                     bad.append('%s <- %s' % (p, src(got) if got is not None else 'missing'))
